@@ -37,7 +37,7 @@ theorem alFind_eq_none_of_not_mem {α : Type} (k : String) :
     rw [if_neg (fun hh => h.1 hh.symm)]
     exact ih h.2
 
-theorem alFind_alSet {α : Type} (k k' : String) (e : α) :
+theorem alFind_alSet_pr {α : Type} (k k' : String) (e : α) :
     ∀ l : List (String × α), alFind k' (alSet k e l) = if k' = k then some e else alFind k' l := by
   intro l
   induction l with
@@ -442,7 +442,7 @@ theorem updGo_spec (Q : RNode → Prop) :
 
 /-! ### fresh nodes and stamps -/
 
-theorem delimSeq_length : ∀ (n : Nat) (ts : Ts), (delimSeq ts n).length = n := by
+theorem delimSeq_length_pr : ∀ (n : Nat) (ts : Ts), (delimSeq ts n).length = n := by
   intro n
   induction n with
   | zero => intro ts; rfl
@@ -523,7 +523,7 @@ theorem put_equiv (k : String) (v : JVal) (ts : Ts) (es : List (String × MEntry
   have hn' := alSet_keys_nodup k (⟨some v, ts⟩ : MEntry) es hn
   refine ⟨fun k' => ?_, ?_⟩
   · simp only [Plain.mapGet, Plain.mapPut]
-    rw [alFind_liveE k' _ hn', alFind_alSet, alFind_alSet, alFind_liveE k' _ hn]
+    rw [alFind_liveE k' _ hn', alFind_alSet_pr, alFind_alSet_pr, alFind_liveE k' _ hn]
     by_cases h : k' = k <;> simp [h]
   · simp only [Plain.mapPut]
     rw [alSet_length, alFind_liveE k _ hn, liveE_length, liveE_length]
@@ -542,7 +542,7 @@ theorem remove_equiv (k : String) (w : JVal) (ts : Ts) (es : List (String × MEn
   have hn' := alSet_keys_nodup k (⟨none, ts⟩ : MEntry) es hn
   refine ⟨fun k' => ?_, ?_⟩
   · simp only [Plain.mapGet, Plain.mapDel]
-    rw [alFind_liveE k' _ hn', alFind_alSet, alFind_filter_ne, alFind_liveE k' _ hn]
+    rw [alFind_liveE k' _ hn', alFind_alSet_pr, alFind_filter_ne, alFind_liveE k' _ hn]
     by_cases h : k' = k <;> simp [h]
   · simp only [Plain.mapDel]
     have h1 := filter_ne_length k (liveE es) w (liveE_keys_nodup es hn) hf
@@ -652,7 +652,7 @@ theorem deleteLocal_spec (id : OpId) (l : Rga) (pos num : Nat) (h : StInv id (.l
       l'.live = l.live.take pos ++ l.live.drop (pos + num) ∧ StInv id.next (.list l') := by
   obtain ⟨hs, ht⟩ := h
   rw [live_eq_lv] at hp hs ⊢
-  have hlen := delimSeq_length num id.next.ts
+  have hlen := delimSeq_length_pr num id.next.ts
   obtain ⟨nodes', tc, h1, h2, h3, h4⟩ :=
     mapLiveFrom_spec (fun x t => { x with v := none, t := t }) (fun _ _ => rfl)
       (fun n => stampOk id.next n.o ∧ stampOk id.next n.t) l.nodes pos (delimSeq id.next.ts num)
@@ -674,7 +674,7 @@ theorem updateLocal_spec (id : OpId) (l : Rga) (pos : Nat) (vs : List JVal) (h :
       l'.live = l.live.take pos ++ vs ++ l.live.drop (pos + vs.length) ∧ StInv id.next (.list l') := by
   obtain ⟨hs, ht⟩ := h
   rw [live_eq_lv] at hp hs ⊢
-  have hlen := delimSeq_length vs.length id.next.ts
+  have hlen := delimSeq_length_pr vs.length id.next.ts
   have hzl : ((delimSeq id.next.ts vs.length).zip vs).length = vs.length := by
     rw [List.length_zip, hlen]; omega
   have hzs : ((delimSeq id.next.ts vs.length).zip vs).map (·.2) = vs :=
@@ -719,14 +719,14 @@ def Good (id : OpId) (s : DState) (c : Call) : Prop :=
       | .err e => (Plain.step (Plain.abs s) c).2 = .err e ∧ (Plain.step (Plain.abs s) c).1 = Plain.abs s
       | .panic _ => False
 
-theorem wrap32_range (x : Int) : -2147483648 ≤ wrap32 x ∧ wrap32 x < 2147483648 := by
+theorem wrap32_range_pr (x : Int) : -2147483648 ≤ wrap32 x ∧ wrap32 x < 2147483648 := by
   unfold wrap32; omega
 
 theorem good_counter (id : OpId) (v : Int) (c : Call) (_h : StInv id (.counter v)) : Good id (.counter v) c := by
   cases c
   case inc d =>
     simp [Good, Call.prepare, execLocal, Plain.step, Plain.abs, OpBody.isMeta, counterIncrease, Plain.equiv,
-      StInv, isDocState, wrap32_range]
+      StInv, isDocState, wrap32_range_pr]
   case mput k w =>
     by_cases hk : (k = "" || w.isNull) = true
     · simp [Good, Call.prepare, hk, Plain.step, Plain.abs, argArtifact]
@@ -883,7 +883,7 @@ theorem artifact_vals (s : DState) (c : Call) (ha : argArtifact s c = true) :
 
 /-! ### from the state to the replica -/
 
-theorem next_rollBack (o : OpId) : o.next.rollBack = o := by
+theorem next_rollBack_pr (o : OpId) : o.next.rollBack = o := by
   cases o; simp [OpId.next, OpId.rollBack]
 
 theorem callLocal_eq (r : Replica) (b : OpBody) (hb : b.isMeta = false) :
@@ -897,7 +897,7 @@ theorem callLocal_eq (r : Replica) (b : OpBody) (hb : b.isMeta = false) :
   unfold Replica.callLocal Replica.execLocalBase
   cases he : execLocal r.state r.opId.next.ts b with
   | ok x => obtain ⟨s', b', ret⟩ := x; simp [hb, he]
-  | err e => simp [hb, he, next_rollBack]
+  | err e => simp [hb, he, next_rollBack_pr]
   | panic w => simp [hb, he]
 
 theorem equiv_refl (p : Plain.PState) : Plain.equiv p p := by
